@@ -18,9 +18,9 @@ from . import HARNESS_VERSION
 from .boot import HarnessError, REPO
 
 VERIF = os.path.dirname(os.path.dirname(os.path.abspath(__file__)))
-EVID = os.path.join(VERIF, 'evidence')
-FOUND = os.path.join(VERIF, 'found')
-KNOWN = os.path.join(VERIF, 'known_findings.json')
+EVID = os.environ.get('VERIF_EVID_DIR') or os.path.join(VERIF, 'evidence')
+FOUND = os.environ.get('VERIF_FOUND_DIR') or os.path.join(VERIF, 'found')
+KNOWN = os.environ.get('VERIF_KNOWN_FILE') or os.path.join(VERIF, 'known_findings.json')
 
 _MOD = {}
 
@@ -307,6 +307,12 @@ def run_check(pid, tier, base_seed=None, n_runs=None, workers=None, budget_s=Non
         ok_results.append(r)
     reported = set()
     t_min0 = time.time()
+    if os.environ.get('VERIF_ALL_REPLAYS'):
+        # tooling: keep an un-minimised replay of every violating run
+        for r in ok_results:
+            for v in r.get('violations') or []:
+                write_replay(pid, r['seed'], r.get('cfg'), r.get('events'), v, r.get('digest'),
+                             name='raw_%s_%s_seed%d.json' % (pid, v['inv'], r['seed']))
     for r in ok_results:
         if not r.get('violations'):
             continue
